@@ -349,3 +349,8 @@ def run(ctx):
     # "preserved by ... backward simulation": no helper task (with logs of its own) may stay behind
     from .C17 import r17_3
     r17_3(ctx)
+    # "preserved by ... resuming": a run resumed from a saved file continues the logs the reader rebuilt -- each object's logs must come
+    # from its own record (two objects handed the same saved list share one list object, which then gets two entries per step)
+    from .C16 import r16_8
+    from ..jsontab import JsonTables
+    r16_8(ctx, JsonTables(ctx), only_keys={a for (_c, a) in spec.LOGS})
